@@ -243,6 +243,16 @@ fn sample_of(run: u64, sc: &Scenario, ticks: u64) -> serde_json::Value {
     let n = sc.events.len();
     if let Some(ev) = v.get_mut("events").and_then(|e| e.as_array_mut()) {
         ev.truncate(14);
+        // a batch can hold tens of thousands of frames (a receiver that buffered a giant block)
+        for e in ev.iter_mut() {
+            let total = e.get("batch").and_then(|b| b.as_array()).map(|b| b.len()).unwrap_or(0);
+            if total > 8 {
+                if let Some(b) = e.get_mut("batch").and_then(|b| b.as_array_mut()) {
+                    b.truncate(8);
+                }
+                e["batch_frames_total"] = json!(total);
+            }
+        }
     }
     json!({"run": run, "events_total": n, "simulated_ticks": ticks, "scenario_head": v})
 }
@@ -345,7 +355,9 @@ pub fn run(ctx: &Ctx, profile: Profile) -> i32 {
                 d.u64(o.f % o.t as u64);
                 acc.shapes.insert(d.finish64());
             }
-            if run < 2 {
+            // samples: the first large single-block run (if any) and the first two ordinary runs
+            let first_ordinary = n_giant + 2 * n_xxl;
+            if (n_giant > 0 && run == 0) || (run >= first_ordinary && run < first_ordinary + 2) {
                 acc.samples.push(sample_of(run, &out.scenario, out.ticks));
             }
             match out.result {
